@@ -1158,6 +1158,16 @@ def run_a2a_forms(ctx, lib, res, stats):
     a2a_stats(stats)["rewrite_forms"] = len(cases)
 
 
+def _has_value_subscript(src):
+    """a subscript with a non-constant index in the *body* of the function (annotations like Qint[2] do not count)"""
+    fn = ast.parse(src).body[0]
+    for st in fn.body:
+        for n_ in ast.walk(st):
+            if isinstance(n_, ast.Subscript) and not isinstance(n_.slice, ast.Constant):
+                return True
+    return False
+
+
 def check_semw(res, c, sem, m, aq, stats):
     """the Lean reference semantics SemW / SemT (lean/QV/Model/Sem.lean, SemT.lean: the ones the theorems C01_expr /
     C01_expr_struct speak of; SemT = SemW widened to tuples and Qchar) against
@@ -1223,20 +1233,49 @@ def check_semw(res, c, sem, m, aq, stats):
     if exact is None:
         res.disagree(case_json(c), "Lean Sem: the driver reply has no 'exact' rows", model=sorted(sem))
         return
+    try:
+        var_index = _has_value_subscript(c.src)
+    except (SyntaxError, IndexError, AttributeError):
+        var_index = False
     if c.expected is not None and c.oracle == "ok" and c.exact is not None and len(c.exact) == len(exact) \
             and len(c.expected) == len(exact):
         for k, (py, lean, exp) in enumerate(zip(c.exact, exact, c.expected)):
-            if lean is None or py is None:
+            if lean is None:
                 stats["sem_rows_undefined"] += 1
                 continue
-            stats["sem_rows"] += 1
             lx, lk, lclaim, linr = lean
             pclaim = "".join("?" if e_ is None else ("1" if e_ else "0") for e_ in exp)
+            if py is None:
+                # Qchar / tuple return: the widened exact semantics (lean/QV/Model/SemXT.lean) claims leaf by leaf;
+                # pysem's claimed bits must be the same string, and every claimed bit must be SemT's bit
+                stats.setdefault("sem_struct_rows", 0)
+                stats["sem_struct_rows"] += 1
+                if lclaim != pclaim:
+                    res.disagree(case_json(c, row=k, args=row_values(c.prog, k)),
+                                 "Lean SemXT (tuple / Qchar return) claims other bits than the python oracle",
+                                 model=lclaim, expected=pclaim)
+                    return
+                got = rows[k]
+                if got is not None and any(ch != "?" and ch != g for ch, g in zip(lclaim, got)):
+                    res.disagree(case_json(c, row=k), "Lean SemT differs from Lean SemXT on a claimed bit "
+                                 "(the statement of C01_straightline_struct fails on this input)", semt=got, sem=lclaim)
+                    return
+                continue
+            stats["sem_rows"] += 1
             if linr:
                 stats["sem_inrange_rows"] += 1
             elif lk:
                 stats["sem_lowbit_rows"] += 1
-            if (lx, lk, lclaim, linr) != (py[0], py[1], pclaim, py[1] is None):
+            if var_index:
+                # `t[i]` with a variable index: python raises IndexError where `i` is out of range (the oracle claims
+                # nothing there), the tree ast2ast leaves is an if-chain that ends in the last element and Lean Sem
+                # is the meaning of that tree: it may claim more.  Wherever the oracle claims, both must agree.
+                if lx != py[0] and py[1] is None or any(p_ != "?" and p_ != l_ for p_, l_ in zip(pclaim, lclaim)):
+                    res.disagree(case_json(c, row=k, args=row_values(c.prog, k)),
+                                 "Lean Sem differs from the python oracle on a claimed bit (variable subscript)",
+                                 model=[lx, lk, lclaim, linr], expected=[py[0], py[1], pclaim, py[1] is None])
+                    return
+            elif (lx, lk, lclaim, linr) != (py[0], py[1], pclaim, py[1] is None):
                 res.disagree(case_json(c, row=k, args=row_values(c.prog, k)),
                              "Lean Sem / inRange differs from the python oracle (value, claimed low bits, claim, in-range flag)",
                              model=[lx, lk, lclaim, linr], expected=[py[0], py[1], pclaim, py[1] is None])
